@@ -54,13 +54,21 @@ void initialize(econf_file *key_file, size_t num) {
 char *get_absolute_path(const char *path, econf_err *error) {
   char *absolute_path;
   if(*path != '/') {
+    /* Only the directory is resolved. The file keeps its own name even if it
+       is a symbolic link (e.g. to /dev/null): files are identified and
+       masked by that name. */
     char buffer[PATH_MAX];
-    if(!realpath(path, buffer)) {
+    const char *name = strrchr(path, '/');
+    char *dir = name ? strndup(path, (size_t)(name - path)) : strdup(".");
+    name = name ? name + 1 : path;
+    if(dir == NULL || !realpath(dir, buffer)) {
+      free(dir);
       if (error)
 	*error = ECONF_NOFILE;
       return NULL;
     }
-    absolute_path = strdup(buffer);
+    free(dir);
+    absolute_path = combine_strings(buffer, name, '/');
   } else {
     absolute_path = strdup(path);
   }
